@@ -8,9 +8,10 @@
   every draw from the numpy Generator is a universally quantified parameter, restricted only by
   the decidable predicate (`RandP.drawOkB`, `RandP.drawsOkB`) saying that numpy can return it.
 
-  FINDING (`randIndex_wf_counterexample`): `rand_z2_index(d, subsizes="minimal")` for `d ≥ 2`
-  returns the chargemap `{0: d, 1: 0}` — a charge of size zero; the full well-formedness theorem
-  is therefore false and is proved as `randIndex_wf_partial`, which excludes exactly that case.
+  HISTORY: before the repair of `rand_z2_index(d, subsizes="minimal")` the code returned the
+  chargemap `{0: d, 1: 0}` for `d ≥ 2` (a charge of size zero) and the well-formedness theorem held
+  only with that case excluded.  The repaired code returns `{0: d}`; `randIndex_wf` is now proved in
+  full and `randZ2Index_minimal_single_charge` pins the repaired result.
 -/
 import SymmModel.Proofs.RandLemmas
 
@@ -30,8 +31,8 @@ theorem mkIndex_ok {sym : Sym} {cs : List Charge} {ss : List Nat} {d : Nat} (dua
 
 /-! ## 8. Z2 -/
 
-theorem randZ2Index_wf_partial {d : Nat} (dual : Option Bool) {ss : Subsizes} {dr : Draws}
-    (hd : 0 < d) (hm : modeOkB .Z2 d ss dr = true) (hx : ¬ (ss = .minimal ∧ 2 ≤ d)) :
+theorem randZ2Index_wf {d : Nat} (dual : Option Bool) {ss : Subsizes} {dr : Draws}
+    (hd : 0 < d) (hm : modeOkB .Z2 d ss dr = true) :
     ∃ ix, randZ2Index (.size d) dual ss dr = .ok ix ∧ IxOk .Z2 d (dual.getD dr.dual) ix := by
   by_cases h1 : d = 1
   · subst h1
@@ -61,7 +62,7 @@ theorem randZ2Index_wf_partial {d : Nat} (dual : Option Bool) {ss : Subsizes} {d
       simp only [List.mem_cons, List.not_mem_nil, or_false] at hs'
       rcases hs' with rfl | rfl <;> assumption
     have hun : ∀ p, z2Sizes d ss dr = .ok p → randZ2Index (.size d) dual ss dr
-        = .ok (mkIndex [(0, 0), (1, 0)] [p.1, p.2] (dual.getD dr.dual)) := by
+        = .ok (z2Index d (dual.getD dr.dual) p) := by
       intro p hp
       simp only [randZ2Index, hne, Bool.false_eq_true, if_false, hp]
       rfl
@@ -70,24 +71,32 @@ theorem randZ2Index_wf_partial {d : Nat} (dual : Option Bool) {ss : Subsizes} {d
     | random =>
       simp only [modeOkB, drawsOkB, hne, Bool.false_eq_true, if_false, Bool.and_eq_true,
         decide_eq_true_eq] at hm
-      exact ⟨_, hun (dr.d0, d - dr.d0) rfl, key _ _ (by omega) (by omega) (by omega)⟩
-    | equal => exact ⟨_, hun (d / 2, d - d / 2) rfl, key _ _ (by omega) (by omega) (by omega)⟩
-    | maximal => exact ⟨_, hun (d / 2, d - d / 2) rfl, key _ _ (by omega) (by omega) (by omega)⟩
-    | minimal => exact absurd ⟨rfl, by omega⟩ hx
+      exact ⟨_, hun (some (dr.d0, d - dr.d0)) rfl, key _ _ (by omega) (by omega) (by omega)⟩
+    | equal => exact ⟨_, hun (some (d / 2, d - d / 2)) rfl, key _ _ (by omega) (by omega) (by omega)⟩
+    | maximal => exact ⟨_, hun (some (d / 2, d - d / 2)) rfl, key _ _ (by omega) (by omega) (by omega)⟩
+    | minimal =>
+      refine ⟨_, hun none rfl, mkIndex_ok _ (by simp) (by decide) ?_ (by simp) (by simp [sumN])⟩
+      intro s hs; simp at hs; omega
 
-/-- FINDING: "minimal" mode on Z2 with `d ≥ 2` returns `{0: d, 1: 0}`: the charge 1 has size zero,
-    so the index is not well formed (`BlockIndex.check()` rejects it) -/
-theorem randZ2Index_minimal_counterexample (d : Nat) (hd : 2 ≤ d) (dual : Option Bool) (dr : Draws) :
+/-- REGRESSION (repair of `rand-z2-index-minimal-zero-size`): "minimal" mode on Z2 returns exactly
+    the single-charge table `{0: d}` — no entry for the odd charge — and it is well formed, for
+    every `d ≥ 1` -/
+theorem randZ2Index_minimal_single_charge (d : Nat) (hd : 1 ≤ d) (dual : Option Bool) (dr : Draws) :
     ∃ ix, randZ2Index (.size d) dual .minimal dr = .ok ix
-      ∧ ix.cm = [((0, 0), d), ((1, 0), 0)] ∧ Index.wfB .Z2 ix = false := by
-  have hne : (d == 1) = false := by simpa using (by omega : d ≠ 1)
-  refine ⟨mkIndex [(0, 0), (1, 0)] [d, 0] (dual.getD dr.dual), ?_, ?_, ?_⟩
-  · simp only [randZ2Index, hne, Bool.false_eq_true, if_false, z2Sizes]; rfl
-  · rfl
-  · have : Index.sortCm (adict ([((0, 0) : Charge), (1, 0)].zip [d, 0])) = [((0, 0), d), ((1, 0), 0)] := rfl
-    show Index.wfB .Z2 (Index.mk (Index.sortCm (adict ([((0, 0) : Charge), (1, 0)].zip [d, 0]))) _ none) = false
-    rw [this]
-    simp [Index.wfB]
+      ∧ ix.cm = [((0, 0), d)] ∧ IxOk .Z2 d (dual.getD dr.dual) ix := by
+  obtain ⟨ix, h1, h2⟩ := randZ2Index_wf (d := d) (ss := .minimal) (dr := dr) dual hd rfl
+  refine ⟨ix, h1, ?_, h2⟩
+  by_cases hd1 : d = 1
+  · subst hd1
+    cases h1
+    rfl
+  · have hne : (d == 1) = false := by simpa using hd1
+    have : randZ2Index (.size d) dual .minimal dr
+        = .ok (mkIndex [(0, 0)] [d] (dual.getD dr.dual)) := by
+      simp only [randZ2Index, hne, Bool.false_eq_true, if_false, z2Sizes]; rfl
+    rw [this] at h1
+    cases h1
+    rfl
 
 /-! ## 9. Z2Z2 -/
 
@@ -201,31 +210,19 @@ theorem randU1U1Index_wf {d : Nat} (dual : Option Bool) {ss : Subsizes} {dr : Dr
 
 /-! ## 11. `rand_index` -/
 
-/- FULL STATEMENT (false, see `randIndex_wf_counterexample`):
-   for every supported symmetry, `d ≥ 1`, direction and mode in {"equal", "maximal", "minimal"}
-   (and `None` with draws numpy can return), `rand_index(symmetry, d, dual, subsizes)` returns an
-   index that is well formed, of total size `d`, of the requested direction.
-   PROVED: the same with the single case (Z2, "minimal", d ≥ 2) excluded. -/
-theorem randIndex_wf_partial {sym : Sym} {d : Nat} (dual : Option Bool) {ss : Subsizes} {dr : Draws}
-    (hs : sym ≠ .Z4) (hd : 0 < d) (hm : modeOkB sym d ss dr = true)
-    (hx : ¬ (sym = .Z2 ∧ ss = .minimal ∧ 2 ≤ d)) :
+/-- for every supported symmetry, `d ≥ 1`, direction and mode in {"equal", "maximal", "minimal"}
+    (and `None` with draws numpy can return), `rand_index(symmetry, d, dual, subsizes)` returns an
+    index that is well formed (strictly sorted valid charges, POSITIVE sizes), of total size `d`,
+    of the requested direction, without sub-structure -/
+theorem randIndex_wf {sym : Sym} {d : Nat} (dual : Option Bool) {ss : Subsizes} {dr : Draws}
+    (hs : sym ≠ .Z4) (hd : 0 < d) (hm : modeOkB sym d ss dr = true) :
     ∃ ix, randIndex sym (.size d) dual ss dr = .ok ix ∧ IxOk sym d (dual.getD dr.dual) ix := by
   cases sym with
   | Z4 => exact absurd rfl hs
-  | Z2 => exact randZ2Index_wf_partial dual hd hm (fun h => hx ⟨rfl, h⟩)
+  | Z2 => exact randZ2Index_wf dual hd hm
   | Z2Z2 => exact randZ2Z2Index_wf dual hd hm
   | U1 => exact randU1Index_wf dual hd hm
   | U1U1 => exact randU1U1Index_wf dual hd hm
-
-/-- the excluded case really fails, for every `d ≥ 2` -/
-theorem randIndex_wf_counterexample (d : Nat) (hd : 2 ≤ d) (dual : Option Bool) (dr : Draws) :
-    modeOkB .Z2 d .minimal dr = true
-    ∧ ∃ ix, randIndex .Z2 (.size d) dual .minimal dr = .ok ix ∧ ¬ IxOk .Z2 d (dual.getD dr.dual) ix := by
-  obtain ⟨ix, h1, _, h3⟩ := randZ2Index_minimal_counterexample d hd dual dr
-  refine ⟨rfl, ix, h1, ?_⟩
-  intro h
-  rw [h.1] at h3
-  exact Bool.noConfusion h3
 
 /-- an unsupported symmetry is a `ValueError` -/
 theorem randIndex_unsupported (d : DArg) (dual : Option Bool) (ss : Subsizes) (dr : Draws) :
@@ -415,12 +412,11 @@ theorem randBlockSizes_spec (size bs0 : Nat) :
 /-! ## 14. `get_rand` returns a valid array -/
 
 /-- one entry of `shape` is acceptable with the draws `dr`: a size `d ≥ 1` in a mode covered by
-    `randIndex_wf_partial` (so NOT Z2 / "minimal" / d ≥ 2), a dict or a ready index that is well
-    formed -/
+    `randIndex_wf` (every deterministic mode; `None` with admissible draws), a dict or a ready index
+    that is well formed -/
 def entryOkB (sym : Sym) (ss : Subsizes) (e : ShapeEntry) (dr : Draws) : Bool :=
   match e with
   | .size d => decide (0 < d) && modeOkB sym d ss dr
-      && !(sym == .Z2 && ss == .minimal && decide (2 ≤ d))
   | .dict cm => Index.wfB sym (dictIndex cm false) && Index.wfB sym (dictIndex cm true)
   | .index ix => Index.wfB sym ix
 
@@ -436,15 +432,9 @@ theorem entryIndex_wf {sym : Sym} {ss : Subsizes} {e : ShapeEntry} {f : Option B
     · exact h.1
     · exact h.2
   | size d =>
-    simp only [entryOkB, Bool.and_eq_true, decide_eq_true_eq, Bool.not_eq_true', Bool.and_eq_false_iff,
-      beq_eq_false_iff_ne, ne_eq, decide_eq_false_iff_not] at h
-    obtain ⟨⟨hd, hm⟩, hx⟩ := h
-    obtain ⟨ix', h1, h2⟩ := randIndex_wf_partial (sym := sym) f hs hd hm (by
-      rintro ⟨a, b, c⟩
-      rcases hx with (hx | hx) | hx
-      · exact hx a
-      · exact hx b
-      · exact hx c)
+    simp only [entryOkB, Bool.and_eq_true, decide_eq_true_eq] at h
+    obtain ⟨hd, hm⟩ := h
+    obtain ⟨ix', h1, h2⟩ := randIndex_wf (sym := sym) f hs hd hm
     have : entryIndex sym ss (.size d) f dr = randIndex sym (.size d) f ss dr := rfl
     rw [this, h1] at hix
     cases hix
@@ -518,10 +508,10 @@ example : u1u1Charges 6 = [(0, 0), (0, 1), (1, 0), (-1, 0), (0, -1), (1, 1)] := 
 example : (randIndex .U1 (.size 10) (some false) .equal default).toOption.map Index.cm
     = some [((-1, 0), 3), ((0, 0), 4), ((1, 0), 3)] := by decide
 example : (randIndex .Z2 (.size 5) (some true) .minimal default).toOption.map Index.cm
-    = some [((0, 0), 5), ((1, 0), 0)] := by decide
+    = some [((0, 0), 5)] := by decide
 example : entryOkB .U1 .maximal (.size 3) default = true
-    ∧ entryOkB .Z2 .minimal (.size 3) default = false
-    ∧ entryOkB .Z2 .minimal (.size 1) default = true := by decide
+    ∧ entryOkB .Z2 .minimal (.size 3) default = true
+    ∧ entryOkB .Z2 .minimal (.size 0) default = false := by decide
 example : randBlockSizes 10 3 = [3, 3, 3, 1] := by decide
 example (a : Arr Int)
     (h : getRand .U1 [.size 3, .size 4] .equal none false .maximal [] ValidP.exFill [] = .ok a) :
